@@ -267,6 +267,7 @@ class FileScan:
     # ------------------------------------------------------------------ declarations
     def find_decls(self):
         toks = self.toks
+        self.decls = []
         i = 0
         stmt_start = 0
         while i < len(toks):
@@ -274,13 +275,25 @@ class FileScan:
             kind, fn, cls = self.ctx[i]
             if t in (";", "{", "}"):
                 stmt_start = i + 1
-            if t == "static":
-                d = self._static_decl(i, stmt_start)
-                if d:
-                    self.decls.append(d)
+            # `static` and `thread_local` both give static / thread storage duration (state that outlives a call);
+            # `static thread_local` / `thread_local static` is handled once, at its first keyword
+            if t in ("static", "thread_local"):
+                prev = toks[i - 1][0] if i > stmt_start else ""
+                if prev not in ("static", "thread_local"):
+                    d = self._static_decl(i, stmt_start)
+                    if d:
+                        self.decls.append(d)
             i += 1
         self._namespace_vars()
         return self.decls
+
+    def mutable_member_classes(self):
+        """classes that declare a `mutable` data member (a `const` object of such a class is not immutable)"""
+        res = set()
+        for i, (t, ln) in enumerate(self.toks):
+            if t == "mutable" and self.ctx[i][0] == "class" and self.ctx[i][2]:
+                res.add(self.ctx[i][2])
+        return res
 
     def _static_decl(self, i, stmt_start):
         toks = self.toks
@@ -320,7 +333,7 @@ class FileScan:
                 elif t == ";" and d2 == 0:
                     break
                 end += 1
-        names = [t for t in mid if is_ident(t)]
+        names = [t for t in mid if is_ident(t) and t not in ("static", "thread_local", "inline", "const", "constexpr")]
         if not names:
             raise ValueError("%s:%d: static declaration without a name" % (self.rel, toks[i][1]))
         name = names[-1]
@@ -331,7 +344,8 @@ class FileScan:
         text = " ".join(t for t, _ in toks[stmt_start:end + 1])
         return {"name": name, "file": self.rel, "line": toks[i][1], "scope": fn,
                 "cls": cls, "decl": text[:160], "mutable": not const, "tok": i, "end": end,
-                "guard": self.guards[toks[i][1] - 1], "kindscope": kind}
+                "guard": self.guards[toks[i][1] - 1], "kindscope": kind,
+                "types": [t for t in pre + mid if is_ident(t) and t != name]}
 
     def _namespace_vars(self):
         """variable definitions at namespace scope that do not use the keyword `static`"""
@@ -358,7 +372,7 @@ class FileScan:
             if t == ";":
                 stmt = toks[start:i]
                 ts = [x for x, _ in stmt]
-                if ts and not (set(ts[:3]) & SKIP) and "operator" not in ts and "static" not in ts:
+                if ts and not (set(ts[:3]) & SKIP) and "operator" not in ts and "static" not in ts and "thread_local" not in ts:
                     d = self._classify_ns_stmt(stmt, start)
                     if d:
                         self.decls.append(d)
@@ -400,7 +414,7 @@ class FileScan:
         ln = stmt[0][1]
         return {"name": name, "file": self.rel, "line": ln, "scope": "", "cls": "", "decl": " ".join(ts)[:160],
                 "mutable": not const, "tok": start, "end": start + len(stmt), "guard": self.guards[ln - 1],
-                "kindscope": "namespace"}
+                "kindscope": "namespace", "types": [t for t in head if is_ident(t) and t != name]}
 
 
 def include_closure(scans, roots):
@@ -425,8 +439,11 @@ def occurrences(scans, seq):
     return res
 
 
-def scan_repo(repo):
-    base = os.path.join(repo, "include", "tapkee")
+_SCAN_CACHE = {}
+
+
+def scan_tree(base, overrides=None):
+    """FileScan of every header under `base`; `overrides` maps a relative path to replacement source text"""
     scans = {}
     for d, dirs, files in sorted(os.walk(base)):
         dirs.sort()
@@ -434,12 +451,30 @@ def scan_repo(repo):
             if f.endswith((".hpp", ".h")):
                 p = os.path.join(d, f)
                 rel = os.path.relpath(p, base)
-                scans[rel] = FileScan(rel, open(p, errors="replace").read())
+                if overrides and rel in overrides:
+                    scans[rel] = FileScan(rel, overrides[rel])
+                    continue
+                key = (p, os.path.getmtime(p), os.path.getsize(p))
+                if key not in _SCAN_CACHE:
+                    _SCAN_CACHE[key] = FileScan(rel, open(p, errors="replace").read())
+                scans[rel] = _SCAN_CACHE[key]
     return scans
 
 
-def analyse(repo):
-    scans = scan_repo(repo)
+def scan_repo(repo, overrides=None):
+    return scan_tree(os.path.join(repo, "include", "tapkee"), overrides)
+
+
+def analyse(repo, overrides=None):
+    scans = scan_repo(repo, overrides)
+    # classes with `mutable` data members, in tapkee and in the keyword library it builds its const objects from
+    mutable_classes = set()
+    for sc in scans.values():
+        mutable_classes |= sc.mutable_member_classes()
+    sw = os.path.join(repo, "include", "stichwort")
+    if os.path.isdir(sw):
+        for sc in scan_tree(sw).values():
+            mutable_classes |= sc.mutable_member_classes()
     for h in DETERMINISTIC_METHOD_HEADERS + FRONT_FILES:
         if h not in scans:
             raise ValueError("expected header missing: " + h)
@@ -452,6 +487,12 @@ def analyse(repo):
     table = []
     for rel, sc in scans.items():
         for d in sc.find_decls():
+            d = dict(d)
+            hit = [t for t in d.get("types", []) if t in mutable_classes]
+            if not d["mutable"] and hit:
+                # `const` does not make the `mutable` members of the object immutable
+                d["mutable"] = True
+                d["decl"] = (d["decl"] + "  /* class %s has mutable members */" % hit[0])[:160]
             table.append(d)
 
     out = []
